@@ -763,6 +763,26 @@ Definition reopen (c : Cfg) (s : st) : st :=
      s_alloc := {| a_next := N.max 1 next_id; a_file := newfile; a_off := 0 |};
      s_disk := s_disk s; s_files := newfile + 1 |}.
 
+(* would a restart now give some written block another id than it has in memory?  (Block ids
+   are positional at recovery: a never-written block at the end of a WAL file that is not the
+   last one consumed an allocator id which recovery does not count.)  Persisted tail positions
+   name their block by id, so after such a restart they resolve to the wrong block or to none. *)
+Fixpoint nlist_eqb (a b : list N) : bool :=
+  match a, b with
+  | [], [] => true
+  | x :: a', y :: b' => (x =? y) && nlist_eqb a' b'
+  | _, _ => false
+  end.
+Definition id_drift (c : Cfg) (s : st) : bool :=
+  let '(rc, _) := scan_files c (N.to_nat (s_files s + 1)) 0 (rev (s_disk s)) 1 {| rc_chains := []; rc_flag := false |} in
+  existsb (fun p : N * tstate =>
+    let ts := snd p in
+    let mem := filter (fun b => match b_ents b with [] => false | _ => true end)
+                      ((match ts_reader ts with Some r => r_chain r | None => [] end) ++
+                       (match ts_writer ts with Some w => [w] | None => [] end)) in
+    let rcv := match find (fun q => fst q =? fst p) (rc_chains rc) with Some (_, (_, ch)) => ch | None => [] end in
+    negb (nlist_eqb (map b_id rcv) (map b_id mem))) (s_topics s).
+
 Definition init : st :=
   {| s_topics := []; s_alloc := {| a_next := 1; a_file := 0; a_off := 0 |}; s_disk := []; s_files := 1 |}.
 
